@@ -225,6 +225,13 @@ func (fc *FnCtx) execAlloc(st *State, x *ssa.Alloc) {
 		fc.regs[x] = v
 	default:
 		r := fc.newRef(st)
+		// a boxed local (captured by a closure, or its address taken): callees cannot reach it
+		// unless the address is passed to them
+		if fc.localBoxes == nil {
+			fc.localBoxes = map[string][]string{}
+		}
+		bk := fc.boxKey(el)
+		fc.localBoxes[bk] = append(fc.localBoxes[bk], r)
 		fc.rootStore(st, &Addr{Kind: aBox, Elem: el, Ref: r}, fc.sorts.Zero(el))
 		fc.regs[x] = Val{T: r, Sort: sortInt, Ty: x.Type(), Addr: &Addr{Kind: aBox, Elem: el, Ref: r, Ty: el}}
 	}
